@@ -80,18 +80,10 @@ class ThresholdOpenList:
                  ):
         self.jump_fraction = jump_fraction
         self.quota_fraction = quota_fraction
-        if quota_function is not None and quota_fraction != 1:
-            wrapped = votelib.component.quota.construct(quota_function)
-
-            def _quota_fractional(votes: int, seats: int) -> Fraction:
-                return wrapped(votes, seats) * quota_fraction
-
-            self.quota_function = _quota_fractional
-        else:
-            self.quota_function = (
-                votelib.component.quota.construct(quota_function)
-                if quota_function is not None else None
-            )
+        self.quota_function = (
+            votelib.component.quota.construct(quota_function)
+            if quota_function is not None else None
+        )
         self.take_higher = take_higher
         self.accept_equal = accept_equal
         self.list_precedence = list_precedence
@@ -113,7 +105,9 @@ class ThresholdOpenList:
         if self.jump_fraction is not None:
             jump_thresholds.append(total_votes * self.jump_fraction)
         if self.quota_function is not None:
-            jump_thresholds.append(self.quota_function(total_votes, n_seats))
+            jump_thresholds.append(
+                self.quota_function(total_votes, n_seats) * self.quota_fraction
+            )
         if not jump_thresholds:
             return candidate_list[:n_seats]
         else:
